@@ -251,6 +251,22 @@ def hyp_run(
     import hypothesis
     from hypothesis import given, settings, HealthCheck, Phase
 
+    # Hypothesis keeps every example of a campaign in its data tree; long campaigns are therefore run as a
+    # sequence of campaigns of at most CHUNK examples with derived seeds (same total, bounded memory)
+    CHUNK = 4000
+    if max_examples > CHUNK:
+        done = 0
+        k = 0
+        while done < max_examples:
+            n = min(CHUNK, max_examples - done)
+            before = len(res.findings)
+            hyp_run(body, strategy, (seed * 1000003 + k) & 0xFFFFFFFFFFFF, n, res, shrink_budget_s, collect, shrink)
+            done += n
+            k += 1
+            if not collect and len(res.findings) > before:
+                break  # first failure found and minimised: stop like a single campaign would
+        return
+
     state = {"best": None, "t_first": None, "n": 0, "harness": None}
 
     phases = [Phase.generate] + ([Phase.shrink] if shrink and not collect else [])
